@@ -329,6 +329,12 @@ def prr_saved_iff_persisting(self, trace):
     return trace.count('save') <= 1 and ((not trace.has('save')) or trace.index('save') > trace.last_index('set_value'))
 
 
+def prr_stored_iff_persisting(self, trace):
+    """C05 / C06 / C07: on success a persisting data object is saved exactly once - whether or not a stored result already
+    exists (a forced recomputation replaces it) - and a non-persisting one never"""
+    return trace.count('save') == (1 if self._data.is_persisting else 0)
+
+
 def prr_value_set(self, trace, run_result):
     """C06: on success the data object holds the run result (set_value(run_result), or the result is itself the data object)"""
     return (trace.count('set_value') == 1 and trace.arg('set_value', 0) == run_result) or \
@@ -413,14 +419,14 @@ from contracts.taskdata import CALLEES as DATA_CALLEES
 CONTRACTS += [
     Contract(
         id='T.process_run_result', target='taskchain.task:Task._process_run_result',
-        props={'C05': 'decisive', 'C06': 'decisive'},
+        props={'C05': 'decisive', 'C06': 'decisive', 'C07': 'supporting'},      # C07: a (forced) run REPLACES the stored result
         inputs={'self': prr_task(), 'run_result': S(Val, 'run_result')},
         requires=['prr_is_class'], callees=PRR_CALLEES,
-        ensures={'value_set': 'prr_value_set'},
+        ensures={'value_set': 'prr_value_set', 'stored_iff_persisting': 'prr_stored_iff_persisting'},
         ensures_all={'save_only_after_typecheck': 'prr_save_only_after_typecheck', 'mistyped_stores_nothing': 'prr_mistyped_stores_nothing',
                      'saved_after_set': 'prr_saved_iff_persisting'},
         clause_props={'value_set': ['C06'], 'save_only_after_typecheck': ['C05', 'C06'], 'mistyped_stores_nothing': ['C05'],
-                      'saved_after_set': ['C05']},
+                      'saved_after_set': ['C05', 'C07'], 'stored_iff_persisting': ['C05', 'C06', 'C07']},
         searchable=False,
     ),
     Contract(
